@@ -95,6 +95,7 @@ def answer (M : ModuleDesc) (refs : List Ref) (frefs : List FRef) : Json :=
   match resolveSymbols M refs frefs with
   | .errors es => Json.mkObj [("errors", Json.arr (es.map jerr).toArray)]
   | .broken => Json.mkObj [("broken", true)]
+  | .crash => Json.mkObj [("crash", true)]
   | .resolved ra rb =>
     let fr := resolveFieldRefs M ra rb frefs
     Json.mkObj [("refs", Json.arr (ra.map jpath).toArray),
